@@ -1,4 +1,4 @@
-(* C28 driver.  case: "<mode> <mask> <delay> <prog>,... [<dir> <vals>,... [<kind> <layout> <locs>,...]]" (see harness/h_c28.cpp); impl result:
+(* C28 driver.  case: "<mode> <mask> <delay> <prog>,... [<dir> <vals>,... [<kind> <layout> <locs>,... [<txts>,...]]]" (see harness/h_c28.cpp); impl result:
    "rets=.. stop=.. file=..".  The model is run under a schedule built (in Coq: sched_for) from what the file
    determines: the order in which the producers' lines entered the queue.  In every mode the modelled logger thread
    writes everything it can reach before stop() returns, regardless of what the implementation did (with the
@@ -7,20 +7,51 @@
 let ztext (s : string) : z list = List.map z_of_int (bytes_of_string s)
 let string_of_ztext (t : z list) : string = string_of_bytes (List.map int_of_z t)
 
-let parse_progs (s : string) : (z * z list) list list =
+let parse_progs (s : string) (txts : string array) : (z * z list) list list =
   List.mapi (fun i p ->
     if p = "-" then []
     else List.init (String.length p) (fun k ->
       let ch = p.[k] in
       if ch >= 'a' then (z_of_int (Char.code ch - 97), [])
-      else (z_of_int (Char.code ch - 48), ztext (Printf.sprintf "%d.%d" i k)))) (split_on ',' s)
+      else
+        let form = if i < Array.length txts && k < String.length txts.(i) then txts.(i).[k] else '0' in
+        let base = Printf.sprintf "%d.%d" i k in
+        let t = (match form with
+                 | 'n' -> base ^ "\n" | 'e' -> base ^ "\nx" ^ string_of_int k | 'r' -> base ^ "\r\n" | 'N' -> "\n"
+                 | _ -> base) in
+        (z_of_int (Char.code ch - 48), ztext t))) (split_on ',' s)
 
 let parse_vals (s : string) : string array =
   Array.of_list (List.map (fun v -> if v = "-" then "" else v) (split_on ',' s))
 
-(* a file line behind the sequence field: blanks were replaced by '/' *)
-let rest_of_token (t : string) : string = String.map (fun c -> if c = '/' then ' ' else c) t
-let token_of_rest (t : string) : string = String.map (fun c -> if c = ' ' then '/' else c) t
+(* a physical line of the file <-> its token: blanks are '/', CR is '~', the empty line is "=" *)
+let line_of_token (t : string) : string =
+  if t = "=" then "" else String.map (fun c -> if c = '/' then ' ' else if c = '~' then '\r' else c) t
+let token_of_line (t : string) : string =
+  if t = "" then "=" else String.map (fun c -> if c = ' ' then '/' else if c = '\r' then '~' else c) t
+
+(* the physical lines of a file made of the records (number, rest): "%07d <rest>\n" each *)
+let phys_lines (f : (nat * z list) list) : string list =
+  let all = String.concat "" (List.map (fun (s, t) -> Printf.sprintf "%07d %s\n" (int_of_nat s) (string_of_ztext t)) f) in
+  match List.rev (split_on '\n' all) with
+  | "" :: r -> List.rev r
+  | r -> List.rev r
+
+(* physical lines -> records: a line "ddddddd <..>" begins a record, other lines continue the text of the record before *)
+let records_of_lines (ls : string list) : (nat * z list) list =
+  let starts l = String.length l >= 8 && l.[7] = ' ' &&
+                 (let ok = ref true in String.iteri (fun i c -> if i < 7 && (c < '0' || c > '9') then ok := false) l; !ok) in
+  let flush cur acc = match cur with
+    | None -> acc
+    | Some (n, parts) -> (nat_of_int n, ztext (String.concat "\n" (List.rev parts))) :: acc in
+  let rec go cur acc = function
+    | [] -> List.rev (flush cur acc)
+    | l :: t when starts l ->
+        go (Some (int_of_string (String.sub l 0 7), [String.sub l 8 (String.length l - 8)])) (flush cur acc) t
+    | l :: t -> (match cur with
+                 | Some (n, parts) -> go (Some (n, l :: parts)) acc t
+                 | None -> failwith "line outside a record") in
+  go None [] ls
 
 let field (name : string) (impl : string) : string option =
   let pre = name ^ "=" in
@@ -30,9 +61,9 @@ let field (name : string) (impl : string) : string option =
 
 let show_obs (o : obs) : string =
   let rets = String.concat "," (List.map (fun r -> if r = [] then "-" else String.concat "" (List.map b01 r)) o.o_rets) in
-  let file = if o.o_file = [] then "-" else
-    String.concat "," (List.map (fun (s, t) -> Printf.sprintf "%07d/%s" (int_of_nat s) (token_of_rest (string_of_ztext t))) o.o_file) in
-  Printf.sprintf "rets=%s stop=%s file=%s" rets (b01 o.o_stopped) file
+  let ls = phys_lines o.o_file in
+  let file = if ls = [] then "-" else String.concat "," (List.map token_of_line ls) in
+  Printf.sprintf "rets=%s stop=%s file=%s post=%d" rets (b01 o.o_stopped) file (List.length ls)
 
 (* implementation observables; None if the result is not of the expected shape *)
 let impl_obs (impl : string) : obs option =
@@ -41,13 +72,12 @@ let impl_obs (impl : string) : obs option =
     (try
       let rets = List.map (fun s -> if s = "-" then [] else List.init (String.length s) (fun i ->
                    match s.[i] with '1' -> true | '0' -> false | _ -> failwith "ret")) (split_on ',' r) in
-      let file = if f = "-" then [] else List.map (fun tok ->
-                   match String.index_opt tok '/' with
-                   | Some p when p = 7 ->
-                       let sq = String.sub tok 0 p in
-                       String.iter (fun c -> if c < '0' || c > '9' then failwith "seq") sq;
-                       (nat_of_int (int_of_string sq), ztext (rest_of_token (String.sub tok (p + 1) (String.length tok - p - 1))))
-                   | _ -> failwith "tok") (split_on ',' f) in
+      let file = if f = "-" then [] else records_of_lines (List.map line_of_token (split_on ',' f)) in
+      (* everything that is in the file after the logger's destruction must have been there when stop() returned *)
+      let nl = if f = "-" then 0 else List.length (split_on ',' f) in
+      (match field "post" impl with
+       | Some p when int_of_string p = nl -> ()
+       | _ -> failwith "post");
       Some { o_rets = rets; o_file = file; o_stopped = (st = "1") }
     with _ -> None)
   | _ -> None
@@ -66,8 +96,8 @@ let order_of (f : string) (np : int) : nat list =
                         if i >= 0 && i < np then Some (nat_of_int i) else None with _ -> None))) (split_on ',' f)
 
 let () = run_protocol (fun case impl ->
-  let go mask progs dir vals =
-    let m = z_of_string mask and ps = parse_progs progs and d = (dir = "1") and va = parse_vals vals in
+  let go mask progs dir vals txts =
+    let m = z_of_string mask and ps = parse_progs progs (parse_vals txts) and d = (dir = "1") and va = parse_vals vals in
     let vf (i : nat) (k : nat) : z =
       let i = int_of_nat i and k = int_of_nat k in
       if i < Array.length va && k < String.length va.(i) then
@@ -80,8 +110,9 @@ let () = run_protocol (fun case impl ->
     let oi = (match impl_obs impl with Some io -> c28_ok d m vf ps io | None -> false) in
     (show_obs o, oi, om) in
   match words case with
-  | [_mode; mask; _delay; progs] -> go mask progs "0" "-"
-  | [_mode; mask; _delay; progs; dir; vals] -> go mask progs dir vals
+  | [_mode; mask; _delay; progs] -> go mask progs "0" "-" "-"
+  | [_mode; mask; _delay; progs; dir; vals] -> go mask progs dir vals "-"
+  | [_mode; mask; _delay; progs; dir; vals; _kind; _layout; _locs; txts] -> go mask progs dir vals txts
   (* logger kind, layout flags, file/line strings: they change the layout of a line, not what the harness extracts from it *)
-  | [_mode; mask; _delay; progs; dir; vals; _kind; _layout; _locs] -> go mask progs dir vals
+  | [_mode; mask; _delay; progs; dir; vals; _kind; _layout; _locs] -> go mask progs dir vals "-"
   | _ -> ("BAD-CASE", false, false))
